@@ -42,6 +42,8 @@ def base_file(i, has_main, dfault, k, with_include=False):
     t = ("template T%d(%s) {\n  signal input a;\n  signal output b;\n  component h = H%d();\n  h.a <== a;\n  %s\n}\n" %
          (i, params, i, stmt))
     dup = ("template T%d(m) {\n  signal input a;\n  signal output b;\n  b <-- a;\n}\n" % i) if dfault == "duplicate" else ""
+    if dfault == "dupfunc":
+        dup = "function T%d(x) {\n  return x + 1;\n}\n" % i
     main = "component main = T%d(2);\n" % i if has_main else ""
     inc = 'include "nosuch%d.circom";\n' % i if with_include else ""
     return "pragma circom 2.0.0;\n" + inc + h + t + dup + main
@@ -113,7 +115,7 @@ def classify(ev, paths):
     elif idc == "CS0002" and loc and "declared multiple times" in msg:
         out.append("paramdup@%s" % file)
     elif idc == "T2008" and loc:
-        out.append("duplicate@%s" % file)
+        out += ["duplicate@%s" % file, "dupfunc@%s" % file]
     return out
 
 
